@@ -45,7 +45,23 @@ func captureExec(name string, in []string) string {
 	tc := &caseWriter{w: bufio.NewWriter(ioutil.Discard), streams: map[string]int{}, seen: map[string]bool{}}
 	var keys []string
 	tc.capture = &keys
-	streams[name].exec(tc, in)
+	func() {
+		defer func() {
+			if r := recover(); r != nil {
+				// the same pseudo case that emit writes for an escaped panic
+				enc := []string{name}
+				for _, x := range in {
+					enc = append(enc, hx(x))
+				}
+				msg := fmt.Sprint(r)
+				if len(msg) > 160 {
+					msg = msg[:160]
+				}
+				keys = append(keys, "implpanic\t"+hx(strings.Join(enc, ","))+"\t"+hx(msg))
+			}
+		}()
+		streams[name].exec(tc, in)
+	}()
 	return strings.Join(keys, "\n")
 }
 
